@@ -18,7 +18,9 @@ var c06Tokens = []string{"x", "$", "$$", "$A", "${X}", "$(c)", "$1", "a$b", "$a"
 	"$required", "$delete", "$replace", "$match", "$value", "$invert", "$output", "$env:HOME", "$repeat", "$encode",
 	"$decode", "$parent", "$merge", `$"x`}
 
-var c06Plain = []string{"x", "$", "$A", "${X}", "$(c)", "$1", "a$b", `$"x`, `$"{a}`, "$_a", "$-x"}
+var c06Plain = []string{"x", "$", "$A", "${X}", "$(c)", "$1", "a$b", `$"x`, `$"{a}`, "$_a", "$-x",
+	// directive-shaped text behind leading white space is plain text; a dollar at the very end
+	" $env:HOME", "\t$repeat", ` $"{a}"`, " $required", "5$"}
 
 var c06Small = []string{"x", "$", "$$", "$a", "$merge:x", `$"{a}"`, "$required", "$delete", "$replace", "$match", "$output", "$repeat", "$env:HOME"}
 
